@@ -766,6 +766,26 @@ def gen_c04(tier, rng):
         cases.append(Case("c04", ops, nontrivial=nm > 0, tags=tuple(sorted(tags))))
     # structured payloads whose inner blocks end exactly at / one byte before / past the payload end (all prefixes, consistent length)
     cases += prefix_closure_cases(tier, rng, "c04p")
+    # every inner 16-bit length field of the status payloads at its extreme values (a count of 0xFFFF padded to even wraps in 16 bits)
+    ops = []
+    for kind, ty, body in structured_payloads(rng):
+        if kind not in ("if", "cm"):
+            continue
+        offs = [36, len(body) - 2] if kind == "if" else [26]
+        if kind == "cm":
+            pos = 26
+            offs = []
+            for _k in range(5):
+                offs.append(pos)
+                pos += 2 + int.from_bytes(body[pos:pos + 2], "big")
+        for off in offs:
+            for v in (0xFFFF, 0xFFFE, 0xFFFD, 0x8000, 0x7FFF, 0x0100, 0x00FF):
+                g = bytearray(body)
+                if off + 2 <= len(g):
+                    g[off:off + 2] = be(v, 2)
+                    for tail in (b"", b"\0\0", b"\0" * 40):
+                        ops.append(feed(frame_header(1, 2, ty >> 8, 3, 4) + message(5, 6, 0, ty & 0xFF, bytes(g) + tail)))
+    cases.append(Case("c04x", ops, nontrivial=True, tags=("inner-length-extremes",)))
     # a message whose 16-bit length field is near its maximum, in frames cut short inside that message (a 16-bit `16 + length`
     # wraps): exactly the completely contained messages may come out
     ops = []
@@ -850,6 +870,10 @@ def gen_tecmp_frames(tier, rng):
     for e in range(0, 41 if tier != "quick" else 12):
         for extra in (0, 1, 11):
             out.append((tecmp_frame(rng, 2, 0, tecmp_bus_payload(rng, e, extra)), "bus"))
+    # entry counts at which the running byte offset 12 + 12 e crosses 8 and 16 bit (21 / 22 entries: 264 / 276; 5460: the most a
+    # 16-bit payload length admits)
+    for e in (20, 21, 22, 23, 42, 43, 100, 5460):
+        out.append((tecmp_frame(rng, 2, 0, tecmp_bus_payload(rng, e, 0)), "bus"))
     # all 256 message types, many data types
     for mt in range(256):
         for dt in [2, 4, rng.randrange(0, 0x101), 0x8000, 0xFFFF, 0xFF00, 0x00FF, rng.getrandbits(16)]:
